@@ -179,7 +179,7 @@ def run(c):
               "Lanes rel and overflow-checks in-process, plus the real binary. Class = (spec forms, offset classes relative to L, L class, #specs, lane/engine); non-trivial = an offset within 1 of a boundary or extreme.")
     rng = c.rng
     lengths = [0, 1, 2, 3, 10, 4095, 4096, 4097, 8191, 8192, 8193, 9999, 10000, 10001, 65536] + ([] if c.quick else [1 << 20])
-    per_len = 500 if c.quick else 4000
+    per_len = 500 if c.quick else 12000
     for cat in ("206 single", "206 multipart", "416", "form closed", "form open", "form suffix", "L = 0", "L = 1", "L > 8192", "engine B responses"):
         c.need(cat)
     t = treegen.Tree()
